@@ -14,6 +14,7 @@ EXPLANATION = ("C02: exhaustive check of the aio provider protocol (result of nn
                " Also: the expiry scan accounts for every entry it walks past (E1), and whoever takes the head off a head-gated request queue starts the next transfer (S3).")
 EXPLANATION += ' Round 3: the absolute-expiry flag is updated together with the timeout / deadline it qualifies (T1).'
 EXPLANATION += " Round 5: the byte-stream connections and the platform's queues park nothing after their close has drained them (P1 = C10.R11 for src/platform and src/supplemental)."
+EXPLANATION += " Round 6: a one-place park field is not overwritten while occupied (A12); an operation unlinked from its wait list is completed, queued again or handed on (A13); the mark a cancel function tests stays on the operation until it completes without a blocking step in between (A14); a busy latch is released by the completion it waits for (S4); 'served in the same critical section' requires the drain under a closed mark (P1)."
 ASSUMPTIONS = ["interleaving-level behaviour of the expire thread and of user code is not decided"]
 
 
